@@ -910,7 +910,13 @@ class Interp:
                     return cur           # short circuit
                 cur = self.eval(nxt, env)
                 continue
-            # symbolic left operand
+            # symbolic left operand; already decided on this path?
+            kt = self.st.known_truth(t)
+            if kt is not None:
+                if kt != is_and:
+                    return cur if not isinstance(cur, SBool) else kt
+                cur = self.eval(nxt, env)
+                continue
             if isinstance(cur, SBool) and (self.spec_depth > 0 or _is_pure_expr(nxt)):
                 r = self.try_pure(nxt, env, t if is_and else z3.Not(t))
                 if r is not None:
@@ -1149,6 +1155,8 @@ class Interp:
         return self.getattr(self.eval(node.value, env), node.attr, node)
 
     def getattr(self, obj, name, node=None):
+        if name in self.config.get('watch_attrs', ()) and isinstance(obj, SObj) and self.spec_depth == 0:
+            self.st.events.append(('load', name, obj.tag, tuple(sorted(k for k, v in getattr(self, 'lock_depth', {}).items() if v > 0))))
         if isinstance(obj, SObj):
             if name in obj.fields:
                 return obj.fields[name]
@@ -1189,6 +1197,14 @@ class Interp:
         self.unsupported(f"attribute {name} of {type(obj).__name__}", node)
 
     def _attr_error(self, obj, name):
+        # the real type has this attribute but it is not modelled: outside the subset (never a
+        # made-up AttributeError)
+        try:
+            t = type_of(obj)
+        except Unsupported:
+            t = None
+        if t is None or hasattr(t, name):
+            raise Unsupported(f"attribute/method '{name}' of {getattr(t, '__name__', '?')} is not modelled")
         raise PyRaise(AttributeError)
 
     def class_attr(self, cls, name, instance, node=None):
@@ -1230,6 +1246,8 @@ class Interp:
         raise PyRaise(AttributeError)
 
     def setattr(self, obj, name, v, node=None):
+        if name in self.config.get('watch_attrs', ()) and isinstance(obj, SObj):
+            self.st.events.append(('store', name, obj.tag, tuple(sorted(k for k, v2 in getattr(self, 'lock_depth', {}).items() if v2 > 0))))
         if isinstance(obj, SObj):
             slots = None
             if not hasattr(obj.cls, '__dict__') or '__dict__' not in dir(obj.cls):
